@@ -19,6 +19,7 @@
   unbounded (`w = 1, 2, 4, 8` are instances).
 -/
 import Sbepp.Lemmas.DynArray
+import Sbepp.Lemmas.DynArrayTie
 
 namespace Sbepp.Properties.C13
 open Sbepp.Rt.DynArray Sbepp.Spec.Vec
@@ -157,5 +158,64 @@ example : runOps exP [.insertN 1 2 0x7a, .eraseRange 0 3, .pushBack 0x61] exBuf
     = .ok [some 1, some 0, none] [0, 3, 0x62, 0x63, 0x61, 0x62, 0x63, 0xe2, 0xc0, 0xc1] := by decide
 example : getN true (putN 4 true 0x01020304) = 0x01020304 ∧ putN 4 false 0x01020304 = [4, 3, 2, 1] := by
   decide
+
+/-! ### the same statements about the definitions extracted from the C++ text
+
+    `Sbepp.Extracted.DynArray.*` is regenerated from `sbepp.hpp` on every run
+    (`extract/methods_dynarray.py`); `Sbepp.Tie.DynArray.*_tie` proves each generated member function
+    equal to the hand model the theorems above are about.  `stepE` / `runOpsE` are `step` / `runOps` with
+    every member function replaced by its extracted definition. -/
+
+open Sbepp.Tie.DynArray (stepE runOpsE)
+
+theorem size_spec_extracted {buf : List Nat} (hwf : WF P buf) :
+    Extracted.DynArray.size P buf = .ok (abs P buf).length buf := by
+  rw [Sbepp.Tie.DynArray.size_tie]; exact size_spec hwf
+
+theorem size_bytes_spec_extracted {buf : List Nat} (hwf : WF P buf) (h64 : P.avail < 2 ^ 64) :
+    Extracted.DynArray.operator_call_size_bytes P buf = .ok (P.w + (abs P buf).length) buf := by
+  rw [Sbepp.Tie.DynArray.size_bytes_tie]; exact size_bytes_spec hwf h64
+
+/-- **C13, one operation, for the extracted member functions** -/
+theorem op_refine_extracted {buf : List Nat} (hwf : WF P buf) (op : Op)
+    (hpre : op.pre (abs P buf).length)
+    (hcap : P.w + op.newLen (abs P buf).length ≤ P.avail)
+    (hmax : op.newLen (abs P buf).length < 256 ^ P.w) :
+    ∃ buf', stepE P op buf = .ok op.ret buf' ∧ WF P buf'
+      ∧ op.post (abs P buf) (abs P buf')
+      ∧ len P buf' = op.newLen (abs P buf).length
+      ∧ (abs P buf').length = op.newLen (abs P buf).length
+      ∧ Frame P buf buf' (max (abs P buf).length (op.newLen (abs P buf).length)) := by
+  rw [Sbepp.Tie.DynArray.stepE_tie]; exact op_refine hwf op hpre hcap hmax
+
+theorem erase_to_end_valid_extracted {buf : List Nat} (hwf : WF P buf) (i : Nat)
+    (hi : i ≤ (abs P buf).length) :
+    ∃ buf', stepE P (.eraseRange i (abs P buf).length) buf = .ok (some i) buf'
+      ∧ abs P buf' = (abs P buf).take i := by
+  rw [Sbepp.Tie.DynArray.stepE_tie]; exact erase_to_end_valid hwf i hi
+
+/-- **C13, all histories, for the extracted member functions** -/
+theorem ops_refine_extracted (ops : List Op) {buf : List Nat} (hwf : WF P buf)
+    (hv : ValidSeq (P.avail - P.w) (256 ^ P.w) (abs P buf).length ops) :
+    ∃ rets buf', runOpsE P ops buf = .ok rets buf' ∧ WF P buf'
+      ∧ Steps (abs P buf) ops (abs P buf') rets
+      ∧ Frame P buf buf' (peak (abs P buf).length ops) := by
+  rw [Sbepp.Tie.DynArray.runOpsE_tie]; exact ops_refine ops hwf hv
+
+theorem bounded_by_buffer_extracted (buf : List Nat) (m : Nat) (h : P.avail < P.w + m)
+    (h64 : P.w + m < 2 ^ 64) :
+    Extracted.DynArray.resize_n_di P m buf = .assertFailed buf := by
+  rw [Sbepp.Tie.DynArray.resize_n_di_tie]; exact bounded_by_buffer buf m h h64
+
+theorem push_back_bounded_extracted {buf : List Nat} (hwf : WF P buf) (v : Nat)
+    (hmax : len P buf + 1 < 256 ^ P.w) (h : P.avail < P.w + (len P buf + 1))
+    (h64 : P.w + (len P buf + 1) < 2 ^ 64) :
+    stepE P (.pushBack v) buf = .assertFailed buf := by
+  rw [Sbepp.Tie.DynArray.stepE_tie]; exact push_back_bounded hwf v hmax h h64
+
+example : stepE exP (.eraseRange 1 3) exBuf
+    = .ok (some 1) [0, 1, 0x61, 0x62, 0x63, 0xe0, 0xe1, 0xe2, 0xc0, 0xc1] := by decide
+example : runOpsE exP [.insertN 1 2 0x7a, .eraseRange 0 3, .pushBack 0x61] exBuf
+    = .ok [some 1, some 0, none] [0, 3, 0x62, 0x63, 0x61, 0x62, 0x63, 0xe2, 0xc0, 0xc1] := by decide
 
 end Sbepp.Properties.C13
